@@ -112,6 +112,9 @@ class ExecGen:
             return var(r.choice(scope['gens']))
         if c < 0.86:
             return call('objectNew', *([s('k'), num(1)] if r.random() < 0.4 else []))
+        if c < 0.90 and self.callable_names(scope) and not scope.get('no_calls') and self.budget > 0:
+            self.budget -= 1
+            return call(r.choice(self.callable_names(scope)), *[self.num_expr(scope, 1) for _ in range(r.randint(0, 2))])
         return self.cond_expr(scope)
 
     def callable_names(self, scope):
@@ -255,6 +258,16 @@ class ExecGen:
                         out.append(self.tick())
             elif r.random() < self.k['early_return'] * 3:
                 out.append(ir.st_return(self.any_expr(scope) if r.random() < 0.6 else None))
+            elif r.random() < 0.25:
+                # explicit global access: inside a function an assignment is LOCAL, systemGlobalSet is not
+                gname = r.choice(['n0', 'n1', 'g0', 'm0'])
+                if r.random() < 0.6:
+                    out.append(ir.st_expr(call('systemGlobalSet', s(gname), self.any_expr(scope))))
+                else:
+                    self.used_hosts.add('hostObserve')
+                    self.n_obs += 1
+                    out.append(ir.st_expr(call('hostObserve', s(f'o{self.n_obs}'),
+                                               call('systemGlobalGet', s(gname), *([num(7)] if r.random() < 0.5 else [])))))
             else:
                 self.used_hosts.add('hostObserve')
                 self.n_obs += 1
@@ -287,6 +300,8 @@ class ExecGen:
                  'gens': ['h0'] + (args[-1:] if args else []) + ['h1'],
                  'labels': ['R0', 'R1', 'G0'], 'fn_index': self.order.index(name),
                  'includes': scope_g.get('includes') if self.k.get('func_includes') else None}
+        if r.random() < self.k.get('p_empty_function', 0.12):
+            return ir.st_function(name, args, [], last)      # a legal function that starts no statement at all
         body = [self.tick()]
         if shadow is not None:
             self.used_hosts.add('hostObserve')
